@@ -309,7 +309,7 @@ pub fn run<P: Property>(prop: &P, tier: Tier, seed: u64, replay: Option<PathBuf>
         }
     }
     // --- phase 2: probes
-    let probes = prop.probes(tier);
+    let probes = if std::env::var_os("VP_NO_PROBES").is_some() { vec![] } else { prop.probes(tier) };
     let probes_n = probes.len();
     {
         let jobs = jobs();
